@@ -13,7 +13,13 @@ import (
 
 func TestC10(t *testing.T) {
 	runProp(t, "C10", func(t *rapid.T) *core.Case {
-		c := drawGeneral(t, gen.Profile{MaxDepth: 3}, gen.WindowOpts{}, gen.DataOpts{Specials: true, MaxSeries: 12, Histogram: true})
+		p := gen.Profile{MaxDepth: 3, Metrics: []string{"m", "m", "n"}}
+		if rapid.IntRange(0, 1).Draw(t, "aggfocus") == 0 {
+			// aggregation-rooted queries over few metric names: the groups are then split across partitions
+			p.Focus = "agg"
+			p.MaxDepth = 2
+		}
+		c := drawGeneral(t, p, gen.WindowOpts{}, gen.DataOpts{Specials: true, MaxSeries: 12, MinSeries: 3, Histogram: true, Metrics: []string{"m", "m", "n"}})
 		c.NParts = rapid.IntRange(1, 4).Draw(t, "nparts")
 		c.Parts = make([]int, len(c.Series))
 		for i := range c.Parts {
@@ -43,9 +49,9 @@ func TestC10Small(t *testing.T) {
 	}
 	seed, _ := strconv.Atoi(os.Getenv("VERIF_SEED"))
 	thorough := os.Getenv("VERIF_TIER") == "thorough"
-	nds := 1
+	nds := 2
 	if thorough {
-		nds = 6
+		nds = 8
 	}
 	runEnum(t, "C10", func(yield func(*core.Case) bool) {
 		idx := 0
@@ -54,7 +60,7 @@ func TestC10Small(t *testing.T) {
 				wo := gen.WindowOpts{}
 				w := gen.DrawWindow(t, wo)
 				cfg := gen.DrawConfig(t)
-				ds := gen.DrawDataset(t, w, gen.DataOpts{Specials: true, MaxSeries: 5, MinSeries: 3, Histogram: d%3 == 2, Lookback: cfg.EffLookback()})
+				ds := gen.DrawDataset(t, w, gen.DataOpts{Specials: true, MaxSeries: 5, MinSeries: 4, Histogram: d%3 == 2, Lookback: cfg.EffLookback(), Metrics: []string{"m", "m", "m", "n"}})
 				c := &core.Case{Series: ds.Series, Start: w.Start, End: w.End, Step: w.Step}
 				cfg.Apply(c)
 				return c
@@ -77,7 +83,7 @@ func TestC10Small(t *testing.T) {
 						if idx%nw != w {
 							continue
 						}
-						if !thorough && (a+qi)%4 != 0 {
+						if !thorough && (a+qi)%3 != 0 {
 							continue
 						}
 						c := *base
